@@ -274,3 +274,89 @@ lemma("C13.single_byte_corruption_is_rejected",
                 "implies(i < len(f) - 1, sum(f[1:-1]) == sum(f[1:i]) + f[i] + sum(f[i + 1:-1]))"],
       let={"g": "f[:i] + bytes([v]) + f[i + 1:]"},
       ensures={"corrupted_frame_fails_the_outer_checksum": "not outer_ok(g)"})
+
+
+# ---- C13: a single-byte body substitution WITH the outer checksum recomputed ---------------------------------------------------
+# Response.validate accepts a body p when p[-1] is the CRC-8 or the additive checksum of p[:-1] (either one, by design).
+# crc_changes:  substituting one byte of the CRC-covered part always changes the CRC-8 (the table is a permutation); proved by
+#   A  crc8_step is injective in the data byte for a fixed state and in the state for a fixed data byte   (bit-vectors)
+#   B  crc8(s[:n]) == crc8_from(crc8(s[:k]), s[k:n])                     split lemma, induction on n    (base / step)
+#   C  x != y  ==>  crc8_from(x, t[:m]) != crc8_from(y, t[:m])              divergence, induction on m     (base / step)
+# and the characterisation `char`: a substituted body is accepted only through the OTHER of the two checks (the one the
+# original body did not rely on).  The literal clause of the property ("every such substitution is dropped") is the lemma
+# C13.fixed_up_substitution_is_dropped: it is refuted exactly by these by-design cases (known finding F7).
+from contracts.frame import crc8_step  # noqa: E402
+
+
+def crc8_from(c, s):
+    return fold(crc8_step, c, s, "crc8")
+
+
+def body_ok(p):
+    """Response.validate's rule (C13 statement): the trailing check byte matches the CRC-8 or the additive checksum of the body"""
+    return len(p) >= 1 and (p[-1] == crc8(p[:-1]) or p[-1] == addck(p[:-1]))
+
+
+lemma("C13.crc_step_injective",
+      params={"c": "byte", "c2": "byte", "m": "byte", "m2": "byte"}, reveal=["crc8_step"],
+      ensures={"in_the_data_byte": "implies(crc8_step(c, m) == crc8_step(c, m2), m == m2)",
+               "in_the_state": "implies(crc8_step(c, m) == crc8_step(c2, m), c == c2)"})
+
+lemma("C13.crc_split.base",
+      params={"s": "bytes", "k": "int[0,1099511627776]"},
+      requires=["k <= len(s)"],
+      ensures={"base": "crc8(s[:k]) == crc8_from(crc8(s[:k]), s[k:k])"})
+
+lemma("C13.crc_split.step",
+      params={"s": "bytes", "k": "int[0,1099511627776]", "n": "int[0,1099511627776]"},
+      requires=["k <= n and n < len(s)", "crc8(s[:n]) == crc8_from(crc8(s[:k]), s[k:n])"],
+      ensures={"step": "crc8(s[:n + 1]) == crc8_from(crc8(s[:k]), s[k:n + 1])"})
+
+lemma("C13.crc_diverges.base",
+      params={"t": "bytes", "x": "byte", "y": "byte"},
+      requires=["x != y"],
+      ensures={"base": "crc8_from(x, t[:0]) != crc8_from(y, t[:0])"})
+
+lemma("C13.crc_diverges.step",
+      params={"t": "bytes", "x": "byte", "y": "byte", "m": "int[0,1099511627776]"},
+      requires=["m < len(t)", "crc8_from(x, t[:m]) != crc8_from(y, t[:m])",
+                # instance of lemma A for the two states reached after m bytes and the next data byte
+                "implies(crc8_step(crc8_from(x, t[:m]), t[m]) == crc8_step(crc8_from(y, t[:m]), t[m]), crc8_from(x, t[:m]) == crc8_from(y, t[:m]))"],
+      ensures={"step": "crc8_from(x, t[:m + 1]) != crc8_from(y, t[:m + 1])"})
+
+SUBST = {"p": "bytes", "i": "int[0,1099511627776]", "v": "byte"}
+SUBST_REQ = ["len(p) >= 2 and i < len(p) - 1", "v != p[i]"]
+SUBST_CRC_HYP = [
+    # instance of B (s = p[:-1], k = i + 1, n = len(p) - 1): the CRC of the body continues from the state after byte i
+    "crc8(p[:-1]) == crc8_from(crc8(p[:i + 1]), p[i + 1:-1])",
+    # instance of A (data byte): different bytes at position i give different states after it
+    "implies(crc8_step(crc8(p[:i]), p[i]) == crc8_step(crc8(p[:i]), v), p[i] == v)",
+    # instance of C (t = p[i + 1:-1], m = len(t)): different states stay different over the common suffix
+    "implies(crc8_step(crc8(p[:i]), p[i]) != crc8_step(crc8(p[:i]), v), "
+    "crc8_from(crc8_step(crc8(p[:i]), p[i]), p[i + 1:-1]) != crc8_from(crc8_step(crc8(p[:i]), v), p[i + 1:-1]))"]
+SUBST_HYP = SUBST_CRC_HYP + [
+    # instance of the sum split lemma (s = p[:-1], k = i)
+    "sum(p[:-1]) == sum(p[:i]) + p[i] + sum(p[i + 1:-1])"]
+
+lemma("C13.crc_changes",
+      params=SUBST, requires=SUBST_REQ + SUBST_CRC_HYP,
+      let={"g": "p[:i] + bytes([v]) + p[i + 1:]"},
+      ensures={"a_substituted_byte_changes_the_crc": "crc8(g[:-1]) != crc8(p[:-1])"})
+
+lemma("C13.fixed_up_substitution.char",
+      params=SUBST, requires=SUBST_REQ + SUBST_HYP + ["body_ok(p)"],
+      let={"g": "p[:i] + bytes([v]) + p[i + 1:]"},
+      ensures={"accepted_only_through_the_other_check":
+               "implies(body_ok(g), (p[-1] == crc8(p[:-1]) and p[-1] != addck(p[:-1]) and g[-1] == addck(g[:-1]) and g[-1] != crc8(g[:-1])) or "
+               "(p[-1] == addck(p[:-1]) and p[-1] != crc8(p[:-1]) and g[-1] == crc8(g[:-1]) and g[-1] != addck(g[:-1])))",
+               "a_body_valid_under_both_checks_has_no_accepted_substitution":
+               "implies(p[-1] == crc8(p[:-1]) and p[-1] == addck(p[:-1]), not body_ok(g))"},
+      notes="C13: with the outer checksum recomputed a substituted body byte (not the check byte) is accepted only when the new body "
+            "happens to satisfy the check the original did not use; Response.construct.post.body_check_unless_properties ties acceptance "
+            "of a non-property frame to body_ok")
+
+lemma("C13.fixed_up_substitution_is_dropped",
+      params=SUBST, requires=SUBST_REQ + SUBST_HYP + ["body_ok(p)"],
+      let={"g": "p[:i] + bytes([v]) + p[i + 1:]"},
+      ensures={"literal_clause_of_the_property": "not body_ok(g)"},
+      notes="the literal second sentence of C13; refuted by design (either check is accepted): known finding F7")
